@@ -40,6 +40,10 @@ CHECKS = {
             'MIR dominance / cut-reachability, who-may-write, writer/reader table agreement'),
 }
 
+CHECKS['C11'] = ('§3 C11', 'R11a one shard lock per MetadataSlab operation, selected by shard_index(key), covering every map operation; R11b the WAL '
+                 'guard is still live at the in-memory apply of a durable write; R11c multi-slab arms of SlabRouter::{put,get,delete} hold '
+                 'one guard across the slabs, and delete decides its result from the removal itself',
+                 'guard live ranges (must/may) over MIR, enum-dispatch arm partition, outcome use analysis')
 CHECKS['C12'] = ('§3 C12', 'R12a check-all-then-acquire-all inside one critical section of both lock tables and one acquisition order in '
                  'every function that takes both, R12b every removal from pending releases each Yes-vote handle with wait-graph cleanup and '
                  'lock table / index are updated together, R12c the deadlock victim is drawn from the cycle argument (provenance of the '
